@@ -40,7 +40,7 @@ VARIABLES
 
 vars == <<log, applied, todo, ipfs, up, act>>
 
-NoPin == [k |-> "none", mode |-> "-", allocs |-> {}, everywhere |-> FALSE, rmin |-> 0, rmax |-> 0]
+NoPin == [k |-> "none", mode |-> "-", allocs |-> {}, everywhere |-> FALSE, rmin |-> 0, rmax |-> 0, exp |-> FALSE]
 
 \* the pinset after the first n log entries
 RECURSIVE PinsetAt(_)
@@ -76,10 +76,10 @@ Pin(at, c, mode, rmin, rmax) ==
         /\ ~(old.k = "pin" /\ old.mode = "rec" /\ mode = "dir")      \* refused (C04)
         /\ IF rmin = -1
              THEN log' = Append(log, [k |-> "pin", cid |-> c,
-                         pin |-> [k |-> "pin", mode |-> mode, allocs |-> {}, everywhere |-> TRUE, rmin |-> -1, rmax |-> -1]])
+                         pin |-> [k |-> "pin", mode |-> mode, allocs |-> {}, everywhere |-> TRUE, rmin |-> -1, rmax |-> -1, exp |-> FALSE]])
              ELSE \E a \in GoodAllocs(old.allocs, rmin, rmax) :
                     log' = Append(log, [k |-> "pin", cid |-> c,
-                         pin |-> [k |-> "pin", mode |-> mode, allocs |-> a, everywhere |-> FALSE, rmin |-> rmin, rmax |-> rmax]])
+                         pin |-> [k |-> "pin", mode |-> mode, allocs |-> a, everywhere |-> FALSE, rmin |-> rmin, rmax |-> rmax, exp |-> FALSE]])
     /\ act' = [name |-> "Pin", at |-> at, cid |-> c, mode |-> mode, rmin |-> rmin, rmax |-> rmax]
     /\ UNCHANGED <<applied, todo, ipfs, up>>
 
@@ -87,6 +87,30 @@ Unpin(at, c) ==
     /\ Len(log) < MaxOps /\ at \in up /\ Pinset[c].k = "pin"
     /\ log' = Append(log, [k |-> "unpin", cid |-> c, pin |-> NoPin])
     /\ act' = [name |-> "Unpin", at |-> at, cid |-> c]
+    /\ UNCHANGED <<applied, todo, ipfs, up>>
+
+\* pin update (C04): the new CID gets the source's mode, factors and allocations; the source stays
+PinUpdate(at, from, to) ==
+    /\ Len(log) < MaxOps /\ at \in up /\ from # to
+    /\ Pinset[from].k = "pin" /\ Pinset[to].k = "none"
+    /\ log' = Append(log, [k |-> "pin", cid |-> to, pin |-> [Pinset[from] EXCEPT !.exp = FALSE]])
+    /\ act' = [name |-> "PinUpdate", at |-> at, from |-> from, cid |-> to]
+    /\ UNCHANGED <<applied, todo, ipfs, up>>
+
+\* a pin is given an expiry that has now passed (time is not modelled: the pin is re-logged as expired)
+PinExpiring(at, c) ==
+    /\ Len(log) < MaxOps /\ at \in up /\ Pinset[c].k = "pin" /\ ~Pinset[c].exp
+    /\ log' = Append(log, [k |-> "pin", cid |-> c, pin |-> [Pinset[c] EXCEPT !.exp = TRUE]])
+    /\ act' = [name |-> "PinExpiring", at |-> at, cid |-> c]
+    /\ UNCHANGED <<applied, todo, ipfs, up>>
+
+\* StateSync on every live peer (C10): each expired pin is unpinned, by exactly one peer
+StateSyncAll ==
+    /\ LET ex == {c \in CIDS : Pinset[c].k = "pin" /\ Pinset[c].exp}
+           sq == CHOOSE s \in [1..Cardinality(ex) -> ex] : \A i, j \in DOMAIN s : i # j => s[i] # s[j]
+       IN /\ ex # {}
+          /\ log' = log \o [i \in 1..Cardinality(ex) |-> [k |-> "unpin", cid |-> sq[i], pin |-> NoPin]]
+    /\ act' = [name |-> "StateSyncAll"]
     /\ UNCHANGED <<applied, todo, ipfs, up>>
 
 \* consensus applies the next entry on p and hands it to the tracker
@@ -134,12 +158,18 @@ PeerFail(q) ==
 Next ==
     \/ \E at \in PEERS, c \in CIDS, m \in {"rec", "dir"} :
           Pin(at, c, m, 1, 1) \/ Pin(at, c, m, 1, 2) \/ Pin(at, c, m, 2, 3) \/ Pin(at, c, m, -1, -1)
-    \/ \E at \in PEERS, c \in CIDS : Unpin(at, c)
+    \/ \E at \in PEERS, c \in CIDS : Unpin(at, c) \/ PinExpiring(at, c)
+    \/ \E at \in PEERS, c, d \in CIDS : PinUpdate(at, c, d)
+    \/ StateSyncAll
     \/ \E p \in PEERS : Apply(p) \/ TrackerStep(p) \/ PeerFail(p)
 
 Spec == Init /\ [][Next]_vars
 
 Settled == \A p \in up : applied[p] = Len(log) /\ todo[p] = <<>>
+
+\* no expired pin survives a StateSync round that follows its expiry (checked on real runs:
+\* the driver always ends with a StateSync round)
+NoExpiredOn(ps) == \A c \in DOMAIN ps : ~(ps[c].k = "pin" /\ ps[c].exp)
 
 \* the end-to-end promise (the tolerated class of C05: a direct pin of a CID the
 \* daemon still holds recursively)
